@@ -43,6 +43,7 @@ func die(pos token.Pos, format string, a ...any) {
 	for _, ext := range []string{".v", ".vo", ".vos", ".vok", ".glob"} {
 		_ = os.Remove(strings.TrimSuffix(outPath, ".v") + ext)
 	}
+	_ = os.Remove(filepath.Join(filepath.Dir(outPath), "entrypoints.json"))
 	os.Exit(1)
 }
 
@@ -768,6 +769,7 @@ func main() {
 	lf := parse(filepath.Join(repo, "utils/filesystem/limits.go"))
 	cf := parse(filepath.Join(repo, "utils/safeio/copy.go"))
 
+	ef := extractEntryPoints(filepath.Join(repo, "utils/filesystem"))
 	fields, apply, recField := limitsFacts(lf)
 	copyN := copyFacts(cf)
 
@@ -1027,11 +1029,13 @@ func main() {
 	w("zf_eos_probe", coqBool(probe))
 	w("ns_depth_inc", fmt.Sprint(nsInc))
 	w("ns_rm_error_returned", coqBool(rmReturned))
+	b.WriteString(ef.coq())
 	w("tr_newzipreader", coqTrace(nz))
 	w("tr_unzip", coqTrace(uz))
 	w("tr_nested", coqTrace(ns))
 	fmt.Fprintf(&b, "  tr_zippedfile := %s\n|}.\n", coqTrace(zp))
 	content := b.String()
+	ef.writeJSON(filepath.Join(filepath.Dir(out), "entrypoints.json"))
 	if old, err := os.ReadFile(out); err == nil && string(old) == content {
 		return
 	}
